@@ -258,6 +258,18 @@ def section_tables(nsec=41):
     return out
 
 
+def eval_all_cond(xi, d=0, n=NMAX, flags=(1, 1, 1, 1)):
+    """Conditioning of the evaluation of D^d f_i(xi): sum_p |a_ip| |xi|^p (what a floating-point evaluation of the polynomial is accurate
+    relative to; equals |value| away from zeros of the polynomial up to a modest factor, stays finite at its zeros)."""
+    xi = np.atleast_1d(np.asarray(xi, dtype=float))
+    C = np.abs(coef_float(d, n))
+    out = np.zeros((xi.size, n))
+    ax = np.abs(xi)
+    for p in range(C.shape[1] - 1, -1, -1):
+        out = out * ax[:, None] + C[:, p][None, :]
+    return out * np.abs(flagvec(*flags, n=n))[None, :]
+
+
 # ---------------------------------------------------------------- the package's own sub-interval tables (explained-by gate)
 _PK = {}
 _PKFAM = {(0, 0): 'integral_ff_12', (0, 1): 'integral_ffxi_12', (0, 2): 'integral_ffxixi_12', (1, 1): 'integral_fxifxi_12',
